@@ -373,7 +373,34 @@ def rule_band_guard(ctx: Ctx) -> int:
     return n
 
 
+def rule_product_dtype(ctx: Ctx) -> int:
+    """Products of image samples that feed the window means of zncc (E[xy], E[x^2]) are formed in float64: the image
+    samples are float32, so x*y and x**2 above 2**24 (12-bit radiometry squared) are rounded *before* the exact float64
+    window sums, and the cancellation E[xy] - E[x]E[y] then leaves errors of the order of the result itself."""
+    tree = ctx.tree
+    n = 0
+
+    def promoted(e: ast.AST) -> bool:
+        return isinstance(e, ast.Call) and ((isinstance(e.func, ast.Attribute) and e.func.attr == "astype" and e.args and canon(e.args[0]) in ("np.float64", "float", "'float64'")) or (dotted(e.func) or "") in ("np.float64",))
+
+    def is_sample(e: ast.AST) -> bool:
+        return "['im']" in canon(e) or canon(e) in ("selected_band",)
+
+    for rel, q in ((ZN, "Zncc.compute_cost_volume"), (IMG, "compute_std_raster")):
+        fn = tree.func(rel, q)
+        for node in walk_no_nested(fn):
+            if isinstance(node, ast.BinOp) and isinstance(node.op, (ast.Mult, ast.Pow)):
+                ops = [node.left] if isinstance(node.op, ast.Pow) else [node.left, node.right]
+                inner = [o.func.value if promoted(o) and isinstance(o.func, ast.Attribute) else (o.args[0] if promoted(o) and o.args else o) for o in ops]
+                if not all(is_sample(x) for x in inner):
+                    continue
+                n += 1
+                ctx.ob("C02.PRODUCT-DTYPE", rel, node, f"{q}: product of image samples `{canon(node)[:90]}` is formed in float64", any(promoted(o) for o in ops), expected="one operand promoted with .astype(np.float64) before the product", detail="float32 products of samples above 12 bits are rounded before the window sums: zncc then differs from the correlation coefficient by up to its own magnitude on low-contrast 16-bit imagery (|cost| > 1, constant windows not 0)")
+    return n
+
+
 def run(ctx: Ctx) -> None:
+    ctx.floor("C02.PRODUCT-DTYPE", rule_product_dtype(ctx), 3)
     ctx.floor("C02.BAND-GUARD", rule_band_guard(ctx), 2)
     rule_skeleton(ctx)
     ctx.floor("C02.BAND-OWNER", rule_band_owner(ctx), 8)
@@ -420,6 +447,8 @@ SPEC = PropSpec(
 )
 
 MUTANTS = [
+    {"id": "std-raster-squares-in-float32", "file": IMG, "old": "selected_band.astype(np.float64) ** 2", "new": "selected_band**2"},
+    {"id": "zncc-product-in-float32", "file": ZN, "old": '                    img_left["im"].data[:, point_p[0] : point_p[1]].astype(np.float64)\n', "new": '                    img_left["im"].data[:, point_p[0] : point_p[1]]\n'},
     {"id": "right-band-lookup-before-dimension-test", "file": SAD, "old": '            # Right image can have 3 dim if its from dataset or 2 if its from shift_right_image function\n            if len(img_right["im"].data.shape) > 2:\n                band_index_right = list(img_right.band_im.data).index(self._band)\n                cost = abs(', "new": '            band_index_right = list(img_right.band_im.data).index(self._band)\n            # Right image can have 3 dim if its from dataset or 2 if its from shift_right_image function\n            if len(img_right["im"].data.shape) > 2:\n                cost = abs('},
     {"id": "ceil-floor-swapped-one-branch", "file": MC, "old": "            point_p = (int(ceil(point_p[0])), int(ceil(point_p[1])))\n", "new": "            point_p = (int(floor(point_p[0])), int(floor(point_p[1])))\n"},
     {"id": "delete-border-renan-slice", "file": SAD, "old": "            cv[:, -offset_row_col:, :] = np.nan\n", "new": ""},
